@@ -142,7 +142,9 @@ func init() {
 		Stages: []*fw.Stage{
 			{
 				Name: "boundaries", Exhaustive: "the listed unit boundaries +-1 s in both forms",
-				N: func(t fw.Tier) uint64 { return uint64(len(boundaries)) * 3 * map[fw.Tier]uint64{fw.Quick: 20, fw.Thorough: 400}[t] },
+				N: func(t fw.Tier) uint64 {
+					return uint64(len(boundaries)) * 3 * map[fw.Tier]uint64{fw.Quick: 20, fw.Thorough: 400}[t]
+				},
 				Run: func(c *fw.Case) {
 					d := boundaries[c.Idx%uint64(len(boundaries))] + time.Duration(int(c.Idx/uint64(len(boundaries))%3)-1)*time.Second
 					v := d.String()
